@@ -326,6 +326,7 @@ fn c01_shard(ctx: &Ctx, out: &mut ShardOut) {
     C01T.run(ctx, &pool, 6, ctx.share(ctx.by_tier(200, 4_000)) as u32, &budget_for(ctx.tier, ctx.shard_seed(95)), out);
     C01R.run(ctx, &pool, 7, ctx.share(ctx.by_tier(320, 5_000)) as u32, &budget_for(ctx.tier, ctx.shard_seed(89)), out);
     c01_set_run(ctx, &pool, out);
+    C01F.run(ctx, &pool, 14, ctx.share(ctx.by_tier(240, 4_000)) as u32, &budget_for(ctx.tier, ctx.shard_seed(98)), out);
     drop(pool);
     let big = Pool::with_workers(CROWD_WORKERS);
     C01W.run(ctx, &big, 13, ctx.share(ctx.by_tier(160, 3_000)) as u32, &crowd_budget(ctx.tier, ctx.shard_seed(96)), out);
@@ -407,6 +408,9 @@ fn c01_replay(sub: &str, case: &Value) -> Result<(), CaseFail> {
     if sub == "lin-treemove" {
         return C01T.replay(&pool, case, &budget_for(Tier::Thorough, 1));
     }
+    if sub == "lin-first" {
+        return C01F.replay(&pool, case, &budget_for(Tier::Thorough, 1));
+    }
     if sub == "lin-crowd" {
         return C01W.replay(&Pool::with_workers(CROWD_WORKERS), case, &crowd_budget(Tier::Thorough, 1));
     }
@@ -462,6 +466,26 @@ pub const C04M: ConcCheck = ConcCheck { sub: "conc-treemove", mix: Mix::TreeMove
 pub const C04U: ConcCheck = ConcCheck { sub: "conc-compute", mix: Mix::Compute, ..C04C };
 pub const C04W: ConcCheck = ConcCheck { sub: "conc-crowd", mix: Mix::Crowd, max_threads: 130, ..C04C };
 pub const C04_ALL: [&ConcCheck; 8] = [&C04C, &C04R, &C04T, &C04Z, &C04D, &C04M, &C04U, &C04H];
+
+/* ------------------------------- first operations on an unallocated map ------------------------------- */
+
+pub const C01F: ConcCheck = ConcCheck { sub: "lin-first", mix: Mix::FirstOps, max_threads: 4, max_ops: 3, ..C01 };
+pub const C05F: ConcCheck = ConcCheck { asked: "C05", sub: "conc-first", mix: Mix::FirstOps, max_threads: 4, max_ops: 3, opts: C01.opts, judge: c05c_judge, mk_probe: NO_PROBE };
+
+/// C14 after concurrent histories: whatever the threads did (lazy initialisation racing `reserve`,
+/// resizes, bulk removals), the table that is left must honour the growth rule: fresh keys inserted
+/// from the main thread do not grow it before the count reaches three quarters of its length
+/// (`ExecOpts::post_capacity`), and the idle `size_ctl` is that threshold (inspector)
+fn c14c_judge(_prog: &Prog, out: &ConcOut) -> Result<(bool, Vec<(&'static str, u64)>), JudgeErr> {
+    base_judge("C14", out)?;
+    let (rs, _) = crossed(out);
+    let mut c = std_classes(out, 0);
+    c.push(("schedules_that_allocated_or_resized_the_table", rs as u64));
+    Ok((rs, c))
+}
+pub const C14F: ConcCheck = ConcCheck { asked: "C14", sub: "cap-first", mix: Mix::FirstOps, max_threads: 4, max_ops: 3, opts: ExecOpts { post_capacity: true, ..ExecOpts::DEFAULT }, judge: c14c_judge, mk_probe: NO_PROBE };
+pub const C14Z: ConcCheck = ConcCheck { sub: "cap-resize", mix: Mix::Resize, max_threads: 3, ..C14F };
+pub const C14H: ConcCheck = ConcCheck { sub: "cap-helpers", mix: Mix::Helpers, max_threads: 4, ..C14F };
 
 /* ------------------------------- C06 (after concurrent histories) ------------------------------- */
 
@@ -656,6 +680,7 @@ pub const C11A: ConcCheck = ConcCheck { sub: "term-retain", mix: Mix::Retain, ..
 pub const C11D: ConcCheck = ConcCheck { sub: "term-drain", mix: Mix::Drain, ..C11 };
 pub const C11U: ConcCheck = ConcCheck { sub: "term-compute", mix: Mix::Compute, ..C11 };
 /// up to 129 threads registered in / queued on one bin (tree-bin readers, bin-lock waiters) and a writer
+pub const C11F: ConcCheck = ConcCheck { sub: "term-first", mix: Mix::FirstOps, max_threads: 4, ..C11 };
 pub const C11W: ConcCheck = ConcCheck { sub: "term-crowd", mix: Mix::Crowd, max_threads: 130, ..C11 };
 
 fn c11_shard(ctx: &Ctx, out: &mut ShardOut) {
@@ -671,6 +696,7 @@ fn c11_shard(ctx: &Ctx, out: &mut ShardOut) {
     C11D.run(ctx, &pool, 23, ctx.share(ctx.by_tier(96, 2_000)) as u32, &b, out);
     C11U.run(ctx, &pool, 24, ctx.share(ctx.by_tier(160, 3_000)) as u32, &b, out);
     C11H.run(ctx, &pool, 21, ctx.share(ctx.by_tier(128, 2_000)) as u32, &helpers_budget(ctx.tier, ctx.shard_seed(96)), out);
+    C11F.run(ctx, &pool, 26, ctx.share(ctx.by_tier(200, 3_000)) as u32, &b, out);
     drop(pool);
     C11W.run(ctx, &Pool::with_workers(CROWD_WORKERS), 25, ctx.share(ctx.by_tier(160, 3_000)) as u32, &crowd_budget(ctx.tier, ctx.shard_seed(97)), out);
 }
@@ -685,6 +711,7 @@ fn c11_replay(sub: &str, case: &Value) -> Result<(), CaseFail> {
         "term-drain" => C11D.replay(&pool, case, &b),
         "term-compute" => C11U.replay(&pool, case, &b),
         "term-helpers" => C11H.replay(&pool, case, &helpers_budget(Tier::Thorough, 1)),
+        "term-first" => C11F.replay(&pool, case, &b),
         "term-crowd" => C11W.replay(&Pool::with_workers(CROWD_WORKERS), case, &crowd_budget(Tier::Thorough, 1)),
         "term-long" => C11L.replay(&pool, case, &Budget { single: 0, double: 0, coarse2: 0, tapes: 200, tape_seed: 1, triple: 0, stagger: 0 }),
         _ => C11.replay(&pool, case, &b),
